@@ -9,6 +9,18 @@ CHECKS = {
  "C01": dict(text="TLC checks exhaustively that the implementation-shaped session automaton (TlsSession.tla: ClientHello/ServerHello/CCS/Finished handling, generate_keys gates, per-direction AEAD sequence number / CBC residue / RC4 position / TLS 1.3 key switch exactly as coded) exports exactly the application records sent, for 5 versions x 4 cipher families x full/abbreviated x grouping x hs-secrets-in-log x padding x tickets x every history of <= 4 application records (direction order, 4 length classes). TLC-generated behaviours are concretized with concrete suites (quick: 3 per (version, family); thorough: every valid (version, suite) pair), session-id lengths, extension sets, extension-shaped certificate bytes, CBC padding lengths and segmentations, run through the working tree and compared with the model's prediction; decrypt/keyswitch hook events of every run are validated in TLC against the record-layer contract (TraceTls.tla: each success consumes the next record under the sender's epoch/sequence number/CBC residue and yields its plaintext).",
              note="Trusted: reference TLS stack in /verif/wire (RFC vectors, agreement with the unchanged tree), observer, TLC. Not claimed (as in the property): compression, renegotiation, KeyUpdate, 0-RTT, HRR, data after alert, 4-tuple reuse. Camellia-GCM suites are not in TLExport's table and not exercised.",
              technique="TLA+ model checking (TLC) of TlsSession.tla + replay of TLC behaviours into the implementation + TLC trace validation of decrypt events", ref="6-C01"),
+ "C06": dict(text="TLC checks exhaustively (n in 0..12 bytes, k in 1..5 carriers, <= 3 records in any direction order) that the implementation-shaped model of OutputBuilder (TcpOut.tla: floor(n/k) split, remainder, two counters, handshake at the first record) satisfies the contract HandshakeFirst / GapFree / AcksConsistent / RecordSplit (<= k segments adding up to n) / SilentWhenEmpty. TLC-emitted record sequences are realised as TLS connections (8 cipher kinds, IPv4/IPv6, with -m/-a) whose records are carried by exactly k segments; the working tree's output file is parsed by an independent strict pcapng reader, frame/length/checksum validator and TCP reassembler, and every observed conversation is validated in TLC against the contract (TraceTcpOut.tla) using the harness' ground truth.",
+             note="Trusted: observer in /verif/observe (pcapng draft, RFC 791/8200/793/768/1071), reference TLS stack, TLC. The output of every other check's runs is passed through the same observer. QUIC/UDP output and the empty-session placeholder are covered once the QUIC generator is attached (see DESIGN).",
+             technique="TLA+ model checking (TLC) of TcpOut.tla + replay of TLC behaviours + TLC validation of observed output conversations (the output file is the trace)", ref="6-C06"),
+ "C07": dict(text="TLC checks MetaIsOverlapSet on Reasm.tla (provenance of every released record = the captured segments overlapping it, for all cut sets / reorderings / duplicates) and RecordSplit / HandshakeTime on TcpOut.tla (part i stamped by carrier i, handshake stamped by the first record's first carrier). Schedules and [d,n,k] sequences from both models are realised with random MAC/IP/port values, IPv4 and IPv6 and timestamp spacings from 1 us to > 1 s (a third under nanosecond resolution); the observer compares endpoints, IP version and orientation with ground truth and every observed conversation is validated in TLC against TraceTcpOut (each data packet's time must be the time of an input packet that carried bytes of that very record; < 1 us under finer resolution); feed/release hook events are validated against TraceReasm (exact provenance sets).",
+             note="Trusted: observer, reference stack, TLC. A duplicate's timestamp is not accepted as provenance (first capture counts). QUIC datagram times/directions are covered by C02's datagram comparison.",
+             technique="TLA+ model checking (TLC) of Reasm.tla/TcpOut.tla + replay + TLC trace validation (TraceTcpOut, TraceReasm)", ref="6-C07"),
+ "C08": dict(text="ExportMonotone (TlsSession.tla) and ReleaseMonotone/ReleasedIsPrefix (Reasm.tla) are checked by TLC as action properties/invariants: every state of the graph is the cut-at-k run, so all cut positions of all behaviours are covered at once. For sampled TLC behaviours (all versions/families/handshake shapes, seeded segmentations, reordered/duplicated flights) every cut 0..N of the concrete capture is a separate run of the working tree; per direction the exports must form a chain of prefixes that ends in the data sent; hook traces of cut runs are validated against the record-layer contract (incomplete traces allowed).",
+             note="Trusted: as C01/C05. Cut positions: all for captures of <= 60 packets, every second one above.",
+             technique="TLA+ action properties checked by TLC + exhaustive cut-point replay of TLC behaviours + TLC trace validation", ref="6-C08"),
+ "C13": dict(text="TlsSession.tla carries what the -a branches append (metaOut) next to `exported`; TLC checks MetaOnlyAdds (application entries identical, same order) and HellosExported over all worlds and histories. Every generated behaviour is run twice through the working tree on the same capture (with and without -a): the payload-carrying packet sequence without -a must be a subsequence of the one with -a, ClientHello/ServerHello records must appear verbatim, outputs must stay well-formed.",
+             note="Trusted: as C01. QUIC stream data under -a is compared by C02's generator.",
+             technique="TLA+ model checking (TLC) of TlsSession.tla (product of both option values) + differential replay of TLC behaviours", ref="6-C13"),
 }
 NA_REASON = "check not built yet in this round (planned: see DESIGN.md section 6)"
 def main():
